@@ -90,7 +90,7 @@ def model_value(model, e):
 
 
 def decide(check, crate, oid, setup, post, replay=None, rb=None, unwind=8, enums=None, models=None, allow_panic=None,
-           max_cex=1, timeout_ms=30000, min_paths=1, note=None, known_predicates=None, budget_s=600, describe=None, merge=None):
+           max_cex=1, timeout_ms=30000, min_paths=1, note=None, known_predicates=None, budget_s=600, describe=None, merge=None, prefer=None):
     """One obligation.
 
     setup(ex, st) -> (fname, args, inputs)         inputs: dict name -> z3 expr / python value (reported in counterexamples)
@@ -143,6 +143,10 @@ def decide(check, crate, oid, setup, post, replay=None, rb=None, unwind=8, enums
                 r = ex.check()
                 if r == z3.sat:
                     m = ex.solver.model()
+                    if prefer is not None:  # a smaller / replayable witness of the same path, if one exists
+                        pc = prefer(inputs)
+                        if ex.check(pc) == z3.sat:
+                            m = ex.solver.model()
                     cex.append(dict(label="panic: " + str(o.msg), inputs=cex_inputs(m)))
                 elif r == z3.unknown:
                     status = "inconclusive"
